@@ -484,13 +484,14 @@ fn run_typed<C: SimColor>(sc: &Scenario, opts: &Opts) -> RunOut {
                         mk(
                             "stream_surplus",
                             format!(
-                                "fill_contiguous call #{} has area {}x{} = {} points but its colour stream yielded at least {} more colour(s) (consumer: {})",
+                                "fill_contiguous call #{} has area {}x{} = {} points but its colour stream yielded at least {} more colour(s) (consumer: {}{})",
                                 ci + 1,
                                 a[2],
                                 a[3],
                                 n,
                                 c.surplus,
-                                sc.dev.disc().name()
+                                sc.dev.disc().name(),
+                                if dev.st.resumed_after_end { "; the stream yielded again AFTER it had returned None" } else { "" }
                             ),
                         )
                         .fact("surplus_is_one_row", (c.surplus == w && w > 0).to_string())
